@@ -214,6 +214,53 @@ func leanBytes(s string) string {
 	return "[" + strings.Join(parts, ", ") + "]"
 }
 
+// all non-test files of the package the file belongs to (a function may live in any of them)
+var pkgCache = map[string][]*ast.File{}
+
+func packageFiles(root, file string) []*ast.File {
+	dir := filepath.Join(root, filepath.Dir(file))
+	if fs, ok := pkgCache[dir]; ok {
+		return fs
+	}
+
+	entries, err := os.ReadDir(dir)
+	if err != nil {
+		fail(nil, "%v", err)
+	}
+
+	var files []*ast.File
+
+	for _, e := range entries {
+		name := e.Name()
+		if e.IsDir() || !strings.HasSuffix(name, ".go") || strings.HasSuffix(name, "_test.go") ||
+			strings.HasPrefix(name, "zz_verif_") {
+			continue
+		}
+
+		f, err := parser.ParseFile(fset, filepath.Join(dir, name), nil, 0)
+		if err != nil {
+			fail(nil, "%v", err)
+		}
+
+		files = append(files, f)
+	}
+
+	pkgCache[dir] = files
+
+	return files
+}
+
+// the function / method of that name, wherever in the package it is declared
+func findInPackage(files []*ast.File, recv, name string) *ast.FuncDecl {
+	for _, f := range files {
+		if fd := findFunc(f, recv, name); fd != nil {
+			return fd
+		}
+	}
+
+	return nil
+}
+
 func findFunc(f *ast.File, recv, name string) *ast.FuncDecl {
 	for _, d := range f.Decls {
 		fd, ok := d.(*ast.FuncDecl)
@@ -755,12 +802,7 @@ func (e *keyExtractor) rangeStmt(v *ast.RangeStmt, sinks map[string]bool) {
 }
 
 func extractKey(root string, t target) []string {
-	f, err := parser.ParseFile(fset, filepath.Join(root, t.file), nil, 0)
-	if err != nil {
-		fail(nil, "%v", err)
-	}
-
-	fd := findFunc(f, t.recv, t.fn)
+	fd := findInPackage(packageFiles(root, t.file), t.recv, t.fn)
 	if fd == nil {
 		fail(nil, "%s: function %s.%s not found", t.file, t.recv, t.fn)
 	}
@@ -787,7 +829,7 @@ func extractKey(root string, t target) []string {
 // hit and miss paths
 
 type pathExtractor struct {
-	file  *ast.File
+	files []*ast.File
 	recv  string
 	depth int
 }
@@ -823,6 +865,13 @@ type pathWalker struct {
 	p    *pathExtractor
 	mark bool
 	res  []string
+	// region mode: the walk starts at the entry function; calls before the cache lookup are ignored, calls executed
+	// once the lookup succeeded are the hit path (marked `?` when conditional), calls after it the miss path
+	region int // 0: not in region mode, 1: before the lookup, 2: hit path, 3: after
+	vars   map[string]bool
+	hit    []string
+	miss   []string
+	gets   int
 	// guard mode (miss path): a call inside a branch whose condition reads the receiver (the configuration of the
 	// mechanism instance, which a rule may override) is reported as `name?<conditions>`
 	norm   *normaliser
@@ -830,6 +879,27 @@ type pathWalker struct {
 }
 
 func (w *pathWalker) add(name string, cond bool) {
+	switch w.region {
+	case 1:
+		return
+	case 2:
+		if cond {
+			name = "?" + name
+		}
+
+		w.hit = append(w.hit, name)
+
+		return
+	case 3:
+		if w.norm != nil && len(w.guards) != 0 && name != "Set" {
+			name += "?" + strings.Join(w.guards, " && ")
+		}
+
+		w.miss = append(w.miss, name)
+
+		return
+	}
+
 	if cond && w.mark {
 		name = "?" + name
 	}
@@ -945,14 +1015,22 @@ func (w *pathWalker) expr(n ast.Node, self string, depth int, cond bool) {
 				w.add(f.Sel.Name, cond)
 
 				if id, ok := f.X.(*ast.Ident); ok && id.Name == self && depth < 3 {
-					if fd := findFunc(w.p.file, w.p.recv, f.Sel.Name); fd != nil {
-						outer := w.norm
+					if fd := findInPackage(w.p.files, w.p.recv, f.Sel.Name); fd != nil {
+						outer, outerVars, outerGuards := w.norm, w.vars, w.guards
 						if outer != nil {
 							w.norm = newNormaliser(fd)
 						}
 
+						if w.region != 0 {
+							w.vars = cacheParams(fd, cacheVars(fd.Body))
+						}
+
 						w.stmts(fd.Body.List, w.p.recvName(fd), depth+1, cond)
-						w.norm = outer
+						w.norm, w.vars = outer, outerVars
+
+						if len(w.guards) > len(outerGuards) {
+							w.guards = w.guards[:len(outerGuards)]
+						}
 					}
 				}
 			case *ast.Ident:
@@ -964,13 +1042,119 @@ func (w *pathWalker) expr(n ast.Node, self string, depth int, cond bool) {
 	})
 }
 
+// is there a cache lookup somewhere inside n
+func mentionsCacheGet(n ast.Node, vars map[string]bool) bool {
+	found := false
+
+	ast.Inspect(n, func(x ast.Node) bool {
+		if e, ok := x.(ast.Expr); ok && isCacheCall(e, "Get", vars) {
+			found = true
+		}
+
+		return !found
+	})
+
+	return found
+}
+
+// is the lookup inside n one of the two statement shapes handled when the walk reaches it (n is a compound
+// statement the walk descends into)
+func containsStmtLookup(n ast.Stmt, vars map[string]bool) bool {
+	found := false
+
+	ast.Inspect(n, func(x ast.Node) bool {
+		switch v := x.(type) {
+		case *ast.IfStmt:
+			if x != ast.Node(n) && isCacheGet(v, vars) {
+				found = true
+			}
+		case *ast.AssignStmt:
+			if x != ast.Node(n) && len(v.Rhs) == 1 && len(v.Lhs) == 2 && isCacheCall(v.Rhs[0], "Get", vars) {
+				found = true
+			}
+		}
+
+		return !found
+	})
+
+	return found
+}
+
 // returns whether what follows the list is only reached conditionally
 func (w *pathWalker) stmts(list []ast.Stmt, self string, depth int, cond bool) bool {
 	scope := len(w.guards)
 
 	defer func() { w.guards = w.guards[:scope] }()
 
-	for _, s := range list {
+	for idx := 0; idx < len(list); idx++ {
+		s := list[idx]
+
+		if w.region == 1 {
+			// `if v, e := <cache>.Get(..); e == nil { <hit path> }`
+			if is, ok := s.(*ast.IfStmt); ok && isCacheGet(is, w.vars) {
+				if is.Else != nil {
+					fail(is, "unrecognised shape of the cache lookup")
+				}
+
+				w.gets++
+				w.region = 2
+				saved := w.guards
+				w.guards = nil
+				w.stmts(is.Body.List, self, depth, false)
+				w.guards = saved
+				w.region = 3
+
+				continue
+			}
+
+			// `v, e := <cache>.Get(..)` followed by `if e != nil { return .. }` (the rest of the function is the hit
+			// path) or by `if e == nil { <hit path> }`
+			if as, ok := s.(*ast.AssignStmt); ok && len(as.Rhs) == 1 && len(as.Lhs) == 2 && isCacheCall(as.Rhs[0], "Get", w.vars) {
+				errVar, _ := as.Lhs[1].(*ast.Ident)
+				if errVar == nil || idx+1 >= len(list) {
+					fail(as, "unrecognised shape of the cache lookup")
+				}
+
+				next, ok := list[idx+1].(*ast.IfStmt)
+				if !ok || next.Init != nil || next.Else != nil {
+					fail(as, "unrecognised shape of the cache lookup")
+				}
+
+				cmp, ok := next.Cond.(*ast.BinaryExpr)
+				if !ok || src(cmp.X) != errVar.Name || src(cmp.Y) != "nil" {
+					fail(as, "unrecognised shape of the cache lookup")
+				}
+
+				w.gets++
+				saved := w.guards
+				w.guards = nil
+
+				switch {
+				case cmp.Op == token.NEQ && exits(next.Body):
+					w.region = 2
+					w.stmts(list[idx+2:], self, depth, false)
+					w.region = 3
+					w.guards = saved
+
+					return cond
+				case cmp.Op == token.EQL:
+					w.region = 2
+					w.stmts(next.Body.List, self, depth, false)
+					w.region = 3
+					w.guards = saved
+					idx++
+
+					continue
+				default:
+					fail(as, "unrecognised shape of the cache lookup")
+				}
+			}
+
+			if mentionsCacheGet(s, w.vars) && !containsStmtLookup(s, w.vars) {
+				fail(s, "cache lookup in an unrecognised position")
+			}
+		}
+
 		switch v := s.(type) {
 		case *ast.BlockStmt:
 			cond = w.stmts(v.List, self, depth, cond)
@@ -1057,6 +1241,21 @@ func (w *pathWalker) stmts(list []ast.Stmt, self string, depth int, cond bool) b
 	return cond
 }
 
+// parameters of type cache.Cache
+func cacheParams(fd *ast.FuncDecl, vars map[string]bool) map[string]bool {
+	if fd.Type.Params != nil {
+		for _, f := range fd.Type.Params.List {
+			if src(f.Type) == "cache.Cache" {
+				for _, n := range f.Names {
+					vars[n.Name] = true
+				}
+			}
+		}
+	}
+
+	return vars
+}
+
 // variables holding the cache of the request context: x := cache.Ctx(..)
 func cacheVars(body ast.Node) map[string]bool {
 	vars := map[string]bool{}
@@ -1123,9 +1322,12 @@ func isCacheGet(s *ast.IfStmt, vars map[string]bool) bool {
 	return xok && yok && x.Name == errVar.Name && y.Name == "nil"
 }
 
-// every function under internal/ that looks something up in, or stores something to the cache of the request context
+// every type (package directory : receiver type, or function for a plain function) under internal/ that looks something
+// up in, or stores something to the cache of the request context; more than one lookup per type is not understood
 func cacheSites(root string) []string {
 	var sites []string
+
+	lookups := map[string]int{}
 
 	err := filepath.Walk(filepath.Join(root, "internal"), func(path string, info os.FileInfo, err error) error {
 		if err != nil {
@@ -1156,7 +1358,7 @@ func cacheSites(root string) []string {
 				continue
 			}
 
-			vars := cacheVars(fd.Body)
+			vars := cacheParams(fd, cacheVars(fd.Body))
 			uses := false
 
 			ast.Inspect(fd.Body, func(x ast.Node) bool {
@@ -1179,7 +1381,29 @@ func cacheSites(root string) []string {
 					recv = src(t)
 				}
 
-				sites = append(sites, rel+":"+recv+"."+fd.Name.Name)
+				if recv == "" {
+					recv = fd.Name.Name
+				}
+
+				site := filepath.Dir(rel) + ":" + recv
+
+				ast.Inspect(fd.Body, func(x ast.Node) bool {
+					if e, ok := x.(ast.Expr); ok && isCacheCall(e, "Get", vars) {
+						lookups[site]++
+					}
+
+					return true
+				})
+
+				known := false
+
+				for _, s := range sites {
+					known = known || s == site
+				}
+
+				if !known {
+					sites = append(sites, site)
+				}
 			}
 		}
 
@@ -1189,110 +1413,32 @@ func cacheSites(root string) []string {
 		fail(nil, "%v", err)
 	}
 
+	for site, n := range lookups {
+		if n > 1 {
+			fail(nil, "%d cache lookups in %s", n, site)
+		}
+	}
+
 	return sites
 }
 
 func extractPaths(root string, t target) (hit, miss []string, returns bool) {
-	f, err := parser.ParseFile(fset, filepath.Join(root, t.file), nil, 0)
-	if err != nil {
-		fail(nil, "%v", err)
-	}
+	files := packageFiles(root, t.file)
 
-	fd := findFunc(f, t.recv, t.fn)
+	fd := findInPackage(files, t.recv, t.fn)
 	if fd == nil {
 		fail(nil, "%s: function %s.%s not found", t.file, t.recv, t.fn)
 	}
 
-	p := &pathExtractor{file: f, recv: t.recv}
-	self := p.recvName(fd)
+	p := &pathExtractor{files: files, recv: t.recv}
+	w := &pathWalker{p: p, region: 1, norm: newNormaliser(fd), vars: cacheParams(fd, cacheVars(fd.Body))}
+	w.stmts(fd.Body.List, p.recvName(fd), 0, false)
 
-	var hitBlock *ast.IfStmt
-
-	vars := cacheVars(fd.Body)
-
-	ast.Inspect(fd.Body, func(x ast.Node) bool {
-		if is, ok := x.(*ast.IfStmt); ok && isCacheGet(is, vars) {
-			if hitBlock != nil {
-				fail(is, "two cache lookups in %s.%s", t.recv, t.fn)
-			}
-
-			hitBlock = is
-		}
-
-		return true
-	})
-
-	if hitBlock == nil {
-		fail(fd, "no `if entry, err := <cache>.Get(...); err == nil` in %s.%s", t.recv, t.fn)
+	if w.gets != 1 {
+		fail(fd, "%d cache lookups of a recognised shape reachable from %s.%s (expected 1)", w.gets, t.recv, t.fn)
 	}
 
-	if hitBlock.Else != nil {
-		fail(hitBlock, "unrecognised shape of the cache lookup")
-	}
-
-	hw := &pathWalker{p: p, mark: true}
-	hw.stmts(hitBlock.Body.List, self, 0, false)
-	hit = hw.res
-
-	ast.Inspect(hitBlock.Body, func(x ast.Node) bool {
-		if _, ok := x.(*ast.ReturnStmt); ok {
-			returns = true
-		}
-
-		return true
-	})
-
-	// everything after the lookup, in source order
-	after := false
-	mw := &pathWalker{p: p, norm: newNormaliser(fd)}
-
-	var walk func(list []ast.Stmt)
-
-	walk = func(list []ast.Stmt) {
-		for _, s := range list {
-			if after {
-				mw.stmts([]ast.Stmt{s}, self, 0, false)
-				miss = mw.res
-
-				continue
-			}
-
-			contains := false
-
-			ast.Inspect(s, func(x ast.Node) bool {
-				if x == ast.Node(hitBlock) {
-					contains = true
-				}
-
-				return !contains
-			})
-
-			if !contains {
-				continue
-			}
-
-			if s == ast.Stmt(hitBlock) {
-				after = true
-
-				continue
-			}
-
-			// the lookup is nested (if cacheEnabled { ... }): descend, then continue after the enclosing statement
-			switch v := s.(type) {
-			case *ast.IfStmt:
-				walk(v.Body.List)
-			case *ast.BlockStmt:
-				walk(v.List)
-			default:
-				fail(s, "cache lookup nested in an unrecognised statement")
-			}
-
-			after = true
-		}
-	}
-	walk(fd.Body.List)
-
-	return hit, miss, returns
+	return w.hit, w.miss, true
 }
 
 // the calls the obligations talk about: validation, the remote call, storing
@@ -1400,12 +1546,9 @@ func main() {
 	out.WriteString("]\n\n")
 
 	// every user of the request cache has to be one of the functions the obligations talk about
-	known := map[string]bool{
-		"internal/httpcache/round_tripper.go:RoundTripper.cachedResponse": true,
-		"internal/httpcache/round_tripper.go:RoundTripper.cacheResponse":  true,
-	}
+	known := map[string]bool{"internal/httpcache:RoundTripper": true}
 	for _, t := range pathTargets {
-		known[t.file+":"+t.recv+"."+t.fn] = true
+		known[filepath.Dir(t.file)+":"+t.recv] = true
 	}
 
 	var sites []string
